@@ -1,6 +1,6 @@
 """Request streams per property (see DESIGN.md section 7). Each stream: name, lines, overflow modes, oracles."""
 from catalog import OPS, UNITS, TYPES, DATE_MIN, DATE_MAX, USECS_PER_DAY, TS_MIN, TS_MAX, YM_MAX, DT_MAX
-from gen import Pools, cross, hx, fbits, days, uniq
+from gen import band_values, Pools, cross, hx, fbits, days, uniq
 from runner import oracle_consts, oracle_no_panic, oracle_range
 import textgen as tg
 
@@ -170,6 +170,72 @@ def wild_parse_lines(rng, pools, n):
         text = tg.byte_random(rng, 14)
         out.append("%s %s %s %s %s" % (rng.choice(["F.parse", "F.parse_t"]), ty, hx(text), hx(pic),
                                        rng.choice(pools.get("clock"))))
+    return out
+
+
+def band_lines(rng, pools, pid, scale):
+    """Requests on values around cast / fast-path / f64-precision thresholds (gen.band_values) for the operations of one
+    property: these bands lie inside the valid ranges, far from every range limit, and are too narrow (10^-9 … 10^-3 of
+    the domain) for uniform random values to land in."""
+    ts = band_values(rng, TS_MIN, TS_MAX, 2 * scale)
+    dt = band_values(rng, -DT_MAX, DT_MAX, 2 * scale)
+    od = uniq([x - x % 1000000 for x in ts])
+    ym = band_values(rng, -YM_MAX, YM_MAX, 2 * scale, units=[1, 12])
+    tpool = [0, 1, 43200000000, 62743250000, 86399999999, 3723000004]
+    out = []
+    if pid in ("C07", "C17", "C02"):
+        for x in ts:
+            out += ["TS.extract %d" % x, "TS.acc %d" % x, "T.from_TS %d" % x]
+        for x in od:
+            out += ["OD.extract %d" % x, "OD.acc %d" % x, "T.from_OD %d" % x]
+    if pid in ("C08", "C17", "C02"):
+        anchors = [TS_MIN, -1, 0, 1709211909123457, TS_MAX]
+        for i in dt:
+            for a in anchors:
+                out += ["TS.add_dt %d %d" % (a, i), "TS.sub_dt %d %d" % (a, i)]
+        for x in ts:
+            out += ["TS.sub_ts %d %d" % (x, 0), "TS.sub_ts %d %d" % (0, x), "TS.sub_date %d 0" % x, "D.sub_ts 0 %d" % x]
+    if pid == "C08":
+        # whole-day doubles far beyond the calendar span, offsets around half a microsecond
+        for k in [106751991, 106751992, 150000000, 213503982, 213503983, 1000000000, 2147483647, 2147483648, 4294967296]:
+            for sg in (1, -1):
+                out += ["TS.add_days 946730096789012 %s" % fbits(float(sg * k)), "TS.sub_days 946730096789012 %s" % fbits(float(sg * k))]
+        for n in range(0, 41):
+            d = (n / 16.0) / 86400e6
+            for sg in (1, -1):
+                out += ["TS.add_days 1614834367000008 %s" % fbits(sg * d), "TS.sub_days 1614834367000008 %s" % fbits(sg * d)]
+    if pid in ("C10", "C11", "C17"):
+        kind = {"C10": ["trunc"], "C11": ["round"], "C17": ["trunc", "round"]}[pid]
+        for x in ts:
+            for k in kind:
+                for u in ("day", "hour", "minute", "month", "iso_week"):
+                    out.append("TS.%s %s %d" % (k, u, x))
+        for x in od[::3]:
+            for k in kind:
+                for u in ("hour", "minute", "day"):
+                    out.append("OD.%s %s %d" % (k, u, x))
+    if pid in ("C12", "C02"):
+        for i in dt:
+            out.append("T.from_DT %d" % i)
+            for t in tpool:
+                out += ["T.add_dt %d %d" % (t, i), "T.sub_dt %d %d" % (t, i)]
+    if pid in ("C13", "C02"):
+        for i in dt:
+            out += ["DT.extract %d" % i, "DT.acc %d" % i, "DT.neg %d" % i]
+        for i in ym:
+            out += ["YM.extract %d" % i, "YM.acc %d" % i]
+    if pid in ("C16", "C17"):
+        for i in dt:
+            for a in (od[0], od[len(od) // 2], 0, 1709211909000000, od[-1]):
+                out += ["OD.add_dt %d %d" % (a, i), "OD.sub_dt %d %d" % (a, i)]
+        for x in ts:
+            out.append("OD.from_TS %d" % x)
+        # fractional days on far dates: the sum's sub-second residue just below / at / above half a second
+        for a in od[::7] + [95624095267000000, -30000000000000000, 200000000000000000]:
+            for us in (499983, 499999, 500000, 500001, 999999, 250000, 1):
+                out.append("OD.add_days %d %s" % (a, fbits(us / 86400e6)))
+                out.append("OD.sub_days %d %s" % (a, fbits(us / 86400e6)))
+                out.append("TS.oracle_add_days %d %s" % (a, fbits(us / 86400e6)))
     return out
 
 
@@ -565,6 +631,11 @@ def streams_for(pid, tier, rng):
         S.append(Stream("probe timestamp text", lines))
     else:
         raise ValueError("unknown property " + pid)
+    bl = band_lines(rng, pools, pid, scale) if pid in ("C02", "C07", "C08", "C10", "C11", "C12", "C13", "C16", "C17") else []
+    if bl:
+        S.append(Stream("values around cast / fast-path / f64-precision thresholds", bl,
+                        ("off", "on") if pid in ("C02", "C08", "C12", "C13") else ("off",),
+                        (oracle_no_panic, oracle_range) if pid == "C02" else (oracle_no_panic,)))
     return [s for s in S if s.lines]
 
 
